@@ -373,7 +373,7 @@ func (f *TemplateFieldSpecifier) unmarshal(r *reader.Reader) error {
 		return err
 	}
 
-	if f.ElementID > 0x8000 {
+	if f.ElementID >= 0x8000 {
 		f.ElementID = f.ElementID & 0x7fff
 		if f.EnterpriseNo, err = r.Uint32(); err != nil {
 			return err
